@@ -28,7 +28,8 @@ RULE = ("case = series of 4..60 points x x class x y class (or affine data) x me
         " Round-4 classes: method as 4th positional argument / new_x and n by position, n as NumPy integer scalar, series of 1001..1800 samples."
         " Round-5 classes: a 'threads' kind (concurrent interpolation requests, all methods except the FITPACK spline)."
         " Round-6 classes: n given next to an explicit grid (documented: ignored)."
-        " Round-7 classes: a 'huge' kind - new grids of 66 000..90 000 points (Weaver.interpolate(n) and explicit grids), methods constant / linear / cubic.")
+        " Round-7 classes: a 'huge' kind - new grids of 66 000..90 000 points (Weaver.interpolate(n) and explicit grids), methods constant / linear / cubic."
+        " Round-8 classes: huge SOURCE series (66 000..90 000 samples) looked up at a few hundred points, some inside the gaps in front of sample 2**15 / 2**16 / 50 000 / 60 000; first use of the library from several threads at once.")
 REQUIRED_MONITORS = ["threads:interp", "threads:first_use:interp", "threads:first_use_yields_injected", "c13:at_samples", "c13:constant", "c13:linear", "c13:affine", "c13:weaver_grid", "c13:grid_rejected"]
 ASSUMPTIONS = ["x strictly increasing, >= 4 points, new grid sorted (non-decreasing)",
                "extrapolation of linear / cubic / spline is outside the statement and not judged"]
@@ -44,7 +45,7 @@ def plan(tier, seed):
 def _plan(tier, seed):
     n = 16000 if tier == "quick" else 1000000
     return [{"kind": "random", "start": p * (n // NSHARDS), "count": n // NSHARDS} for p in range(NSHARDS)] + \
-        [{"kind": "huge", "start": 4 * p, "count": 4} for p in range(2 if tier == "quick" else 8)]
+        [{"kind": "huge", "start": 4 * p, "count": 4} for p in range(3 if tier == "quick" else 9)]
 
 
 def make_grid(rng, x, beyond):
@@ -73,7 +74,11 @@ def run_case(ctx, kind_, idx):
     from traffic_weaver.process import interpolate
     rng = ctx.rng(kind_, idx)
     cid = ctx.case_id(kind_, idx)
-    x, y, meta = R.gen_series(rng, 4, 60, ties_share=0.2, long_share=0.0 if kind_ == "huge" else R.LONG_SHARE)
+    long_source = kind_ == "huge" and (idx // 4) % 3 == 2
+    x, y, meta = R.gen_series(rng, 4, 60, ties_share=0.2, long_share=0.0 if kind_ == "huge" else R.LONG_SHARE,
+                              force_m=int(rng.integers(66000, 90001)) if long_source else None)
+    if long_source:
+        y = y + 1e-3 * np.arange(len(y))        # no two samples alike
     method = METHODS[int(rng.integers(0, 4))]
     if kind_ == "huge":
         method = ["constant", "linear", "constant", "cubic"][idx % 4]
@@ -85,7 +90,7 @@ def run_case(ctx, kind_, idx):
     mode = ["function", "function", "weaver_n", "weaver_grid", "weaver_bad_grid"][int(rng.integers(0, 5))]
     if kind_ == "huge":
         # hourly averages expanded to one point per second: a new grid of more than 2**16 points
-        mode = ["weaver_n", "function"][(idx // 4) % 2]
+        mode = ["weaver_n", "function"][(idx // 4) % 2] if not long_source else "function"
     info = {"mode": mode, "method": method, "m": len(x), "xcls": meta["xcls"], "ycls": meta["ycls"]}
     if len(x) <= 10:
         info.update({"x": x, "y": y})
@@ -160,7 +165,15 @@ def run_case(ctx, kind_, idx):
                 new_x, got = gx, gy
             else:
                 new_x = x.copy() if rng.integers(0, 4) == 0 else make_grid(rng, x, beyond=True)
-                if kind_ == "huge":
+                if long_source:
+                    # a day of per-second samples looked up at a few hundred points, some of them inside the gaps in
+                    # front of round sample numbers
+                    ks = np.array([2 ** 16, 2 ** 16 + 1, 2 ** 15, 50000, 60000, 2 ** 16 - 1])
+                    fr = rng.choice([0.5, 0.25, 0.999, 0.0], len(ks))
+                    at_edges = x[ks - 1] + fr * (x[ks] - x[ks - 1])
+                    new_x = np.sort(np.concatenate([at_edges, rng.uniform(float(x[0]), float(x[-1]), int(rng.integers(100, 400)))]))
+                    info["long_source"] = len(x)
+                elif kind_ == "huge":
                     span_ = float(x[-1] - x[0])
                     new_x = np.sort(np.concatenate([x, rng.uniform(float(x[0]) - 0.02 * span_, float(x[-1]) + 0.02 * span_,
                                                                    int(rng.integers(66000, 90001)))]))
